@@ -325,6 +325,8 @@ class AbstractHasAxes(AbstractHasMetadata):
 
             if not np.isscalar(ix) and not isinstance(ix, slice):
                 ix = np.asarray(ix)
+                if ix.size == 0 and ix.dtype.kind == 'f':
+                    ix = ix.astype(int) # empty list: default float dtype is not a valid index
 
             # boolean indices are fine
             if isinstance(ix, np.ndarray) and ix.dtype.kind == 'b':
